@@ -45,7 +45,7 @@ DEFAULTS = dict(
     n_links=(1, 6), roots='mixed', stack=(1, 3), kinds='mixed', orthogonal=False,
     body_offsets=True, body_rot=True, anchor_offset=True, limits=0.3, damping=0.5, armature=0.5,
     stiffness=0.3, actuators=(0, 3), geoms=('sphere', 'capsule', 'box'), geom_offsets=True,
-    collide=False, ground=False, gravity=(0.0, 0.0, -9.81), timestep=0.002, max_children=2, topology='random',
+    collide=False, ground=False, gravity=(0.0, 0.0, -9.81), timestep=0.002, max_children=2, topology='random', limit_excl_zero=0.0,
     limit_range=(0.3, 2.5), custom=None, elasticity=False)
 
 
@@ -95,6 +95,11 @@ def gen_model(rng, **opts):
         jt = dict(name=f'j{i}_{d}', type=kind, axis=axis)
         if rng.random() < o['limits']:
           lo = -rng.uniform(*o['limit_range']); hi = rng.uniform(*o['limit_range'])
+          if o['limit_excl_zero'] > 0 and rng.random() < o['limit_excl_zero']:
+            # a legal range that does not contain 0 (e.g. a telescopic link that cannot fully retract)
+            sgn = 1.0 if rng.random() < 0.5 else -1.0
+            a, b = rng.uniform(0.1, 0.4), rng.uniform(0.5, 1.2)
+            lo, hi = (a, b) if sgn > 0 else (-b, -a)
           jt['range'] = (lo, hi)
         if rng.random() < o['damping']:
           jt['damping'] = float(rng.uniform(0.1, 2.0))
